@@ -185,12 +185,14 @@ MembersA ==
     [] Family = "refs" -> {NoM, M(":", FALSE, BK(1)), M(":", FALSE, BSelf("b")), M(":", FALSE, BSuper("a")),
                            M(":", FALSE, BSuperPlus("a", 10)), M(":", FALSE, BInSuper("a")), M(":", FALSE, BLocal("b")),
                            M(":", TRUE, BSelfPlus("b", 100)), M("::", FALSE, BDollar("b"))}
+    [] Family = "locals" -> {NoM, M(":", FALSE, BK(1)), M(":", FALSE, BLocal("b")), M(":", FALSE, BSuperPlus("a", 10)), M(":", TRUE, BK(2))}
     [] Family \in {"omit", "assert"} -> {NoM, M(":", FALSE, BK(1)), M(":", TRUE, BK(2)), M("::", FALSE, BSuperPlus("a", 10))}
 MembersB ==
   CASE Family = "vis"  -> {NoM} \cup {M(v, FALSE, BK(5)) : v \in VisSet}
     [] Family = "plus" -> {NoM, M(":", FALSE, BSelf("a"))}
     [] Family = "refs" -> {NoM, M(":", FALSE, BK(5)), M(":", FALSE, BSelfPlus("a", 1000)), M("::", FALSE, BSuper("b")),
                            M(":", FALSE, BInSuper("a"))}
+    [] Family = "locals" -> {NoM, M(":", FALSE, BK(5)), M(":", FALSE, BLocal("a")), M(":", FALSE, BSuperPlus("b", 100)), M(":", FALSE, BInSuper("a"))}
     [] Family = "omit" -> {NoM, M(":", FALSE, BK(5))}
     [] Family = "assert" -> {NoM, M(":", FALSE, BK(5)), M(":", FALSE, BSelfPlus("a", 100))}
 Asserts == IF Family = "assert"
